@@ -607,6 +607,82 @@ func TestVerifC12(t *testing.T) {
 			sound.Record(idx, obs, 1, func() string { return fmt.Sprintf("%s %v", kind, devs) })
 		}
 	}
+	// ---- one handler, connections arriving on different local addresses in every order: the Host
+	// check is a function of the connection it arrives on, not of what the handler saw before
+	seqs := env.NewCases(res, "host-check-sequences")
+	type conn struct{ local, host string }
+	conns := []conn{
+		{"127.0.0.1:80", "localhost:80"}, {"127.0.0.1:80", "evil.example"}, {"[::1]:80", "[::1]:80"}, {"[::1]:80", "evil.example"},
+		{"192.168.1.5:80", "lan-host.example"}, {"192.168.1.5:80", "localhost:80"},
+	}
+	for _, kind := range []string{"stateless-modern", "sse"} {
+		var rec func(cur []int)
+		rec = func(cur []int) {
+			if len(cur) >= 2 {
+				if idx, mine := seqs.Next(); mine {
+					var sig, msg string
+					func() {
+						defer func() {
+							if r := recover(); r != nil {
+								sig, msg = "c12 host-sequence panic-or-leak "+kind, fmt.Sprint(r)
+							}
+						}()
+						synctest.Test(t, func(t *testing.T) {
+							e, err := c12Setup(kind)
+							if err != nil {
+								sig, msg = "c12 host-sequence setup", err.Error()
+								return
+							}
+							if e.cleanup != nil {
+								defer e.cleanup()
+							}
+							var desc []string
+							for _, ci := range cur {
+								desc = append(desc, fmt.Sprintf("%s Host=%s", conns[ci].local, conns[ci].host))
+							}
+							for step, ci := range cur {
+								c := conns[ci]
+								r := e.base()
+								r.localAddr, r.host = c.local, c.host
+								loopbackListener := strings.HasPrefix(c.local, "127.") || strings.HasPrefix(c.local, "[::1]")
+								loopbackHost := strings.HasPrefix(c.host, "localhost") || strings.HasPrefix(c.host, "127.") || strings.HasPrefix(c.host, "[::1]")
+								mustReject := loopbackListener && !loopbackHost
+								*e.dispatch = 0
+								status, _, err := c12Send(e, r)
+								if err != nil {
+									sig, msg = "c12 host-sequence harness", err.Error()
+									return
+								}
+								synctest.Wait()
+								switch {
+								case mustReject && (*e.dispatch != 0 || status != 403):
+									sig = "c12 host-sequence dispatched-despite-host " + kind
+									msg = fmt.Sprintf("request #%d arrived on the loopback address %s with Host %s: status %d, dispatched %d, want 403 and nothing dispatched [%s: %s]", step+1, c.local, c.host, status, *e.dispatch, kind, strings.Join(desc, " ; "))
+									return
+								case !mustReject && (*e.dispatch != 1 || status >= 400):
+									sig = "c12 host-sequence valid-request-rejected " + kind
+									msg = fmt.Sprintf("request #%d arrived on %s with Host %s, which meets the Host precondition: status %d, dispatched %d [%s: %s]", step+1, c.local, c.host, status, *e.dispatch, kind, strings.Join(desc, " ; "))
+									return
+								}
+							}
+						})
+					}()
+					if sig != "" {
+						seqs.Violate(idx, sig, msg, len(cur))
+					} else {
+						seqs.Record(idx, fmt.Sprintf("%s sequence of %d", kind, len(cur)), len(cur), func() string { return fmt.Sprint(kind, cur) })
+					}
+				}
+			}
+			if len(cur) == 3 {
+				return
+			}
+			for ci := range conns {
+				rec(append(append([]int{}, cur...), ci))
+			}
+		}
+		rec(nil)
+	}
 	agree := env.NewCases(res, "client-server-agreement")
 	c12Agreement(t, agree)
 	env.Finish(res)
